@@ -51,9 +51,31 @@ def compare(a_out, b_out, pids_a, nodes, what, o, res, stats, exact=True):
                               dict(kind=what, date=impl.iso(o), column=t, witness=w, dtypes=[str(x.dtype), str(y.dtype)]), True)
 
 
+PRELUDE = "From GettsimModel Require Import Engine Dag TableSep.\nFrom GettsimGen Require Import GenRules GenDag GenConfig.\n"
+
+
+def obligations():
+    return [dict(
+        name="c02_graph_ready_for_separability_theorem",
+        stmt="forallb (fun od => let S := filter (fun n => match d_kind n with KGrouping => false | _ => negb (String.eqb (d_name n) \"geburtsdatum\") end) "
+             "(subgraph (snd od) default_targets) in forallb (sep_ready_b all_fundefs) S && keys_fresh_b S) "
+             "(filter (fun od => Z.leb 735599 (fst od)) dags) = true",
+        proof="vm_cast_no_check (@eq_refl bool true).",
+        what="premises of C02_engine_separable (TableSep.run_separable_b) on every dumped graph >= 2015: every node of the default targets' graph other "
+             "than the six id builders and the date-valued rule geburtsdatum is a rule with a declared result dtype, a unit conversion, a group "
+             "reduction, a join or a sum by person pointer, and no node bears the name of a key column (group id, p_id, foreign / primary key)")]
+
+
 def run(ctx, res):
     impl.setup()
     import pandas as pd
+    import coqrun
+
+    res.obligations += coqrun.prove("C02", PRELUDE + "Open Scope Z_scope.\n", obligations(), shards=1, timeout=1500)
+    for ob in res.obligations:
+        if not ob["ok"] and ob["name"].startswith("c02_"):
+            res.add_violation(f"obligation:{ob['name']}", f"obligation {ob['name']} no longer checks: {ob['err'][-300:]}",
+                              dict(kind="obligation", obligation=ob["name"], err=ob["err"]), False)
 
     rnd = ctx.rng("c02")
     ds = metam.dag_dates()
